@@ -9,7 +9,7 @@
 //                 stack, or on the Dwarf value when dw= is given)
 //   dw=<path>     open <path> and push it as a Dwarf value on the input stack
 //   max=<n>       pull at most n results (default 20000)
-//   t=<secs>      per-case alarm (default 10)
+//   t=<secs>      per-case budget in CPU seconds of the worker (default 10); wall-clock backstop at 10x + 30 s
 //   abandon=<k>   destroy the result set after k pulls
 //
 // Each case runs in a forked worker, so a crash / abort / timeout of case k is
@@ -27,6 +27,7 @@
 #include <vector>
 #include <sys/types.h>
 #include <sys/wait.h>
+#include <sys/time.h>
 #include <unistd.h>
 
 #if defined (__SANITIZE_ADDRESS__)
@@ -969,8 +970,15 @@ main (int argc, char **argv)
 		k.mode = default_mode;
 	      fprintf (out, "B %zu\n", i);
 	      fflush (out);
-	      alarm (k.timeout);
+	      // the budget is CPU time of this worker, so that a loaded machine does
+	      // not turn slow cases into hangs; a wall-clock alarm far beyond it
+	      // catches a worker that sleeps for ever
+	      struct itimerval it = {{0, 0}, {(time_t) k.timeout, 0}};
+	      setitimer (ITIMER_PROF, &it, nullptr);
+	      alarm (k.timeout * 10 + 30);
 	      std::string r = do_case (k);
+	      it.it_value.tv_sec = 0;
+	      setitimer (ITIMER_PROF, &it, nullptr);
 	      alarm (0);
 #ifdef ZWDRV_LSAN
 	      // everything the case allocated has been released by now: what is still
@@ -1015,7 +1023,7 @@ main (int argc, char **argv)
 	{
 	  std::string why;
 	  if (WIFSIGNALED (status))
-	    why = WTERMSIG (status) == SIGALRM ? "timeout" : "signal " + std::to_string (WTERMSIG (status));
+	    why = (WTERMSIG (status) == SIGALRM || WTERMSIG (status) == SIGPROF) ? "timeout" : "signal " + std::to_string (WTERMSIG (status));
 	  else
 	    why = "exit " + std::to_string (WEXITSTATUS (status));
 	  printf ("{\"crash\":\"%s\"}\n", why.c_str ());
